@@ -61,9 +61,10 @@ let gen_elem r (t : tyrow) (size : int) : velem =
     let n = match size with
       | 0 -> rint r 6
       | 1 -> (match rint r 8 with 0 -> 0 | 1 -> 1 | 2 -> 3 | 3 -> 4 | _ -> rrange r 2 40)
-      | _ -> (match rint r 12 with
+      | 2 -> (match rint r 12 with
           | 0 -> 0 | 1 -> 1 | 2 -> 2 | 3 -> 3 | 4 -> 4 | 5 -> 125 | 6 -> 126 | 7 -> 127 | 8 -> 128
-          | 9 -> rrange r 129 400 | _ -> rrange r 5 40) in
+          | 9 -> rrange r 129 400 | _ -> rrange r 5 40)
+      | _ -> pick r [| 65531; 65532; 65536; 70000; 16380; 16384 |] (* length field beyond 16 bits *) in
     let d = content r eoid n in
     if n + 1 <= 127 && rbool r then EShort d else ELong d
   end
@@ -99,6 +100,7 @@ let gen_arr r (k : int) : arr * string =
       min (pick r [| 2000; 1999; 1024; rrange r 200 2000 |])
         (int_of_float (sqrt (4.0e6 /. float_of_int (if iz t.t_len > 0 then w else 8)))), 0
     else if shape < 300 then pick r [| 7; 8; 9; 15; 16; 17; 23; 24; 25; 31; 32; 33; 63; 64; 65 |], 0
+    else if shape < 306 then 1 + rint r 2, 3
     else if shape < 530 then 1 + rint r 4, 2
     else rrange r 1 14, 1 in
   if n = 0 then ({ a_ty = t; a_dims = []; a_hasnull = false; a_elems = [] }, "valid." ^ cls t ^ ".empty")
@@ -140,7 +142,7 @@ let row_of_arr (a : int) : tyrow = List.find (fun t -> iz t.t_arr = a) pg_array_
 let tail_for r = if rint r 3 = 0 then rnz r (1 + rint r 40) else []
 
 let gen_case seed r k =
-  let a, tag = gen_arr r (k / 2) in
+  let a, tag = gen_arr r (k / 2 + k / 20) in   (* 11q + c: every row of the 50 with every case kind *)
   let bytes = enc_array a in
   let oid = a.a_ty.t_arr in
   match k mod 20 with
@@ -237,5 +239,8 @@ let gen_case seed r k =
 let gen seed n =
   emit ~fn:"ArrayTables" ~tag:"tables_exhaustive" ~s:"-" ~m:(tables_string ()) [];
   (* the unit-test vectors of the repository: {1,2,3}::int4[] and the 12-byte empty array *)
+  let basic = bytes_of_hex "0100000000000000170000000300000001000000010000000200000003000000" in
+  run_dt ~tag:"corpus.TestDecodeArrayBasic" ~s:"l[elem:23:01000000,elem:23:02000000,elem:23:03000000]" basic [] (zi 1007);
+  run_dt ~tag:"corpus.TestDecodeArrayEmpty" ~s:"l[]" (bytes_of_hex "000000000000000017000000") [] (zi 1007);
   for k = 0 to n - 1 do gen_case seed (rng_for seed k) k done
 let () = main gen
